@@ -290,6 +290,8 @@ def run(tier, seed):
     import itertools
     hist = [(k, f) for n in (2, 3) for k in itertools.product(list(HIST), repeat=n) for f in ('text', 'json') if n == 2 or tier != 'quick' or k[0] == k[2]]
     par.pmap(work_history, hist, stats=st, chunk=4)
+    from props import delivery as _DL
+    par.pmap(_DL.work, _DL.tasks(tier), extra=(('terrapin',),), stats=st, chunk=12)
     vcases = []
     for case in H.pick(cs, seed, 30 if tier == 'quick' else 150):
         role, marker, ch, cb, et = case[:5]
